@@ -5,7 +5,7 @@ import itertools, random, json
 from ..harness import coq, impl, scn, gen, obs as O, pyeval
 
 pid = 'C07'
-gen_modules = ['tr_state', 'tr_validators', 'tr_has_patcher', 'tr_contracts', 'tr_decorators', 'tr_pin_contracts', 'tr_pin_invariant', 'tr_rest_validators', 'tr_rest_patcher', 'tr_rest_state', 'tr_rest_contractsconst', 'tr_dispatch', 'tr_rest_dispatch', 'tr_rest_trace']
+gen_modules = ['tr_state', 'tr_validators', 'tr_has_patcher', 'tr_contracts', 'tr_decorators', 'tr_pin_contracts', 'tr_pin_invariant', 'tr_rest_validators', 'tr_rest_patcher', 'tr_rest_state', 'tr_rest_contractsconst', 'tr_dispatch', 'tr_rest_dispatch', 'tr_rest_trace', 'tr_pin_inherit']
 model_targets = ['Sem/ScnSwitch.v', 'Sem/Scenario.v']
 hand_modelled = []
 OPS = ['enable', 'disable', 'reset', 'perm']
@@ -216,6 +216,15 @@ def check():
     for name, d in decs.items():
         out[name] = d(f) is f
     out["inv"] = deal.inv(lambda obj: False)(K) is K
+    class Base7:
+        @deal.pre(lambda self, x: x > 0)
+        def m(self, x): return x
+    class Sub7(Base7):
+        def m(self, x): return x
+        def other(self): return 1
+    before = dict(vars(Sub7))
+    out["inherit_class_returns_it"] = deal.inherit(Sub7) is Sub7
+    out["inherit_class_untouched"] = all(vars(Sub7).get(k) is v for k, v in before.items()) and Sub7().m(-1) == -1 and list(deal.introspection.get_contracts(Sub7.m)) == []
     for op in ("enable", "reset"):
         try:
             getattr(deal, op)(); out[op + "_raises"] = False
